@@ -481,3 +481,163 @@ def dependency_parsers(ctx, tier, seed):
             fails.insert(0, {"case": f"known:{name}", "detail": f"{type(e).__name__} escapes UBXReader with ERR_IGNORE", "inputs": {"data": data.hex()}})
     fails = [f for f in fails if f["case"].startswith("known:") or b"$PUBX*" not in bytes.fromhex(f["inputs"]["data"])]
     return _res("dependency parsers behind the reader: only their own exception classes escape", f"{n} mutated NMEA/RTCM3 frames", cases, fails)
+
+
+def scaled_roundtrip(ctx, tier, seed):
+    """C03, scaled fields: for every distinct (integer type, scale) pair of the tables, feeding the attribute value the
+    parser reports (round(raw * scale, 12)) back through the constructor's int(value / scale) must give raw.
+    Exhaustive over all raw values for 1- and 2-byte types; boundary + seeded values for wider types."""
+    from pyubx2 import UBX_PAYLOADS_GET, UBX_PAYLOADS_SET, UBX_PAYLOADS_POLL
+    from contracts.oracle import parse_def, Leaf, Group
+    rnd = random.Random(seed + 303)
+    pairs = {}
+
+    def walk(ents, where):
+        for e in ents:
+            if isinstance(e, Leaf) and e.scale is not None and e.scale != 1:
+                pairs.setdefault((e.typ, e.scale), where + e.name)
+            elif isinstance(e, Group):
+                walk(e.entries, where)
+
+    for mode, t in (("GET", UBX_PAYLOADS_GET), ("SET", UBX_PAYLOADS_SET), ("POLL", UBX_PAYLOADS_POLL)):
+        for nm, d in t.items():
+            walk(parse_def(d), f"{mode} {nm}.")
+    fails = []
+    cases = 0
+    nsample = 20000 if tier == "quick" else 400000
+    for (typ, scale), where in sorted(pairs.items(), key=lambda x: (x[0][0], repr(x[0][1]))):
+        n = int(typ[1:4])
+        lo, hi = (-(1 << (8 * n - 1)), 1 << (8 * n - 1)) if typ[0] == "I" else (0, 1 << (8 * n))
+        if n <= 2:
+            raws = range(lo, hi)
+        else:
+            # deterministic part first (independent of the seed): boundaries and the 2^17 values around zero
+            raws = [lo, lo + 1, hi - 2, hi - 1] + list(range(0, 1 << 16)) + list(range(-(1 << 16), 0)) + \
+                   [rnd.randrange(lo, hi) for _ in range(nsample)]
+            raws = [r for r in raws if lo <= r < hi]
+        bad = None
+        for raw in raws:
+            cases += 1
+            val = round(raw * scale, 12)
+            try:
+                back = int(val / scale)
+            except Exception:  # noqa
+                back = None
+            if back != raw:
+                bad = raw
+                break
+        if bad is not None:
+            fails.append({"case": f"{typ}x{scale!r}", "detail": f"raw {bad} -> {round(bad * scale, 12)!r} -> {int(round(bad * scale, 12) / scale)} (first use: {where})",
+                          "inputs": {"type": typ, "scale": repr(scale), "raw": bad}})
+    return _res("scaled attribute value -> raw round trip per (type, scale) pair", f"{len(pairs)} pairs; exhaustive for <= 2-byte types, "
+                f"{nsample} seeded + boundary values for wider types", cases, fails, exhaustive=False)
+
+
+def kw_end_to_end(ctx, tier, seed):
+    """build from random in-range keyword values -> serialize -> parse -> same attribute values (unscaled fields)"""
+    from pyubx2 import UBXMessage, UBXReader, UBX_MSGIDS, UBX_PAYLOADS_GET, UBX_PAYLOADS_SET, UBX_PAYLOADS_POLL
+    from contracts.oracle import parse_def, Leaf, Bitfield, Group
+    import pyubx2.exceptions as ube
+    rnd = random.Random(seed + 404)
+    tabs = [UBX_PAYLOADS_GET, UBX_PAYLOADS_SET, UBX_PAYLOADS_POLL]
+    names2key = {}
+    for k, v in UBX_MSGIDS.items():
+        names2key.setdefault(v, k)
+    fails = []
+    cases = 0
+    reps = 2 if tier == "quick" else 30
+    for mode, tab in enumerate(tabs):
+        for name, defn in tab.items():
+            key = names2key.get(name)
+            if key is None or name in ("CFG-VALGET", "CFG-VALSET"):
+                continue
+            ents = parse_def(defn)
+            if any(isinstance(e, Group) and not isinstance(e.count, int) for e in ents):
+                continue  # counted groups are covered symbolically
+            for _ in range(reps):
+                kw = {}
+                for e in ents:
+                    if isinstance(e, Leaf) and e.scale is None and e.typ != "CH" and rnd.random() < 0.7 \
+                            and not e.name.startswith("reserved"):
+                        n = e.size
+                        if e.typ[0] in "EUL":
+                            kw[e.name] = rnd.randrange(1 << (8 * n))
+                        elif e.typ[0] == "I":
+                            kw[e.name] = rnd.randrange(-(1 << (8 * n - 1)), 1 << (8 * n - 1))
+                        elif e.typ[0] in "XC":
+                            kw[e.name] = bytes(rnd.randrange(256) for _ in range(n))
+                    elif isinstance(e, Bitfield):
+                        for fn, w in e.flags:
+                            if not fn.startswith("reserved") and rnd.random() < 0.7:
+                                kw[fn] = rnd.randrange(1 << w)
+                if len(key) == 3:
+                    kw["type"] = key[2]
+                if not kw:
+                    continue
+                cases += 1
+                try:
+                    m = UBXMessage(key[0:1], key[1:2], mode, **kw)
+                    p = UBXReader.parse(m.serialize(), msgmode=mode)
+                except (ube.UBXMessageError, ube.UBXTypeError) as e:
+                    if "'length'" in str(e) or name == "FOO-BAR" or "must include" in str(e) or name == "MGA-ANO":
+                        continue  # recorded findings F-16a/c/e; payload-only messages
+                    fails.append({"case": f"{name}:{mode}", "detail": f"{type(e).__name__}: {e}"[:200], "inputs": {"kwargs": repr(kw)[:300]}})
+                    continue
+                bad = [k2 for k2, v in kw.items() if getattr(p, k2, v) != v]
+                if bad and p.identity == m.identity:
+                    fails.append({"case": f"{name}:{mode}:{bad[0]}", "detail": f"{bad[0]}: built {kw[bad[0]]!r}, parsed {getattr(p, bad[0], None)!r}",
+                                  "inputs": {"kwargs": repr(kw)[:300]}})
+    return _res("keyword build -> parse returns the supplied values (unscaled fields, fixed-size definitions)", f"{reps} random keyword sets per definition", cases, fails)
+
+
+def bad_values(ctx, tier, seed):
+    """C15 natively: for every definition and attribute, a zoo of ill-typed / out-of-range values is either refused with
+    UBXMessageError / UBXTypeError or yields a payload of exactly the definition's static length"""
+    from pyubx2 import UBXMessage, UBX_MSGIDS, UBX_PAYLOADS_GET, UBX_PAYLOADS_SET, UBX_PAYLOADS_POLL
+    from contracts.oracle import parse_def, static_size, Leaf, Bitfield, Group
+    import pyubx2.exceptions as ube
+    rnd = random.Random(seed + 1515)
+    zoo = [-1, 1 << 70, 256, 65536, 1.5, float("nan"), float("inf"), "x", "", b"", b"\x00" * 3, b"\x00" * 300, [1], [0] * 300,
+           None, True, (1, 2), {"a": 1}]
+    tabs = [UBX_PAYLOADS_GET, UBX_PAYLOADS_SET, UBX_PAYLOADS_POLL]
+    names2key = {}
+    for k, v in UBX_MSGIDS.items():
+        names2key.setdefault(v, k)
+    fails = []
+    cases = 0
+    per = 3 if tier == "quick" else 12
+    for mode, tab in enumerate(tabs):
+        for name, defn in tab.items():
+            key = names2key.get(name)
+            if key is None or name in ("CFG-VALGET", "CFG-VALSET", "FOO-BAR"):
+                continue
+            ents = parse_def(defn)
+            if any(isinstance(e, Group) and not isinstance(e.count, int) for e in ents):
+                continue
+            want_len = static_size(ents)
+            attrs = []
+            for e in ents:
+                if isinstance(e, Leaf) and not e.name.startswith("reserved"):
+                    attrs.append((e.name, e.typ))
+                elif isinstance(e, Bitfield):
+                    attrs += [(fn, "flag") for fn, _ in e.flags if not fn.startswith("reserved")]
+            for (an, typ) in rnd.sample(attrs, min(per, len(attrs))):
+                for v in rnd.sample(zoo, 6):
+                    kw = {an: v}
+                    if len(key) == 3 and an != "type":
+                        kw["type"] = key[2]
+                    cases += 1
+                    try:
+                        m = UBXMessage(key[0:1], key[1:2], mode, **kw)
+                    except (ube.UBXMessageError, ube.UBXTypeError):
+                        continue
+                    except Exception as e:  # noqa
+                        fails.append({"case": f"{name}:{mode}:{an}={v!r}"[:80], "detail": f"escapes as {type(e).__name__}: {e}"[:160],
+                                      "inputs": {"name": name, "mode": mode, "kwargs": repr(kw)[:200]}})
+                        continue
+                    if want_len is not None and typ[0] not in "XC" and m.identity == name and len(m.payload or b"") != want_len:
+                        fails.append({"case": f"{name}:{mode}:{an}={v!r}:length"[:80],
+                                      "detail": f"payload has {len(m.payload)} bytes, definition implies {want_len}",
+                                      "inputs": {"name": name, "mode": mode, "kwargs": repr(kw)[:200]}})
+    return _res("ill-typed / out-of-range keyword values are refused or encoded at the right length (X/C length excepted: F-15c)",
+                f"every fixed-size definition x {per} attributes x 6 zoo values", cases, fails)
